@@ -29,7 +29,7 @@ fn c41_literal_successor_within_year() {
     assert!(date_to_days_since_epoch(y2 as i32, m2, d2) == date_to_days_since_epoch(y as i32, m, d) + 1);
 }
 
-//@ props=C41 kind=proof timeout=3000 tier=thorough
+//@ props=C41 kind=proof timeout=3000 fallback=literal_year_loop
 /// year part, complete for years 1..=9999: date_to_days_since_epoch(y+1,1,1) - date_to_days_since_epoch(y,1,1)
 /// == 365/366 per the leap rule, and the month/day offset inside a year does not depend on the year loop:
 /// date_to_days_since_epoch(y,m,d) - date_to_days_since_epoch(y,1,1) == ordinal(y,m,d)-1.
@@ -42,6 +42,18 @@ fn c41_literal_year_step() {
     let a = date_to_days_since_epoch(y, 1, 1);
     let b = date_to_days_since_epoch(y + 1, 1, 1);
     assert!(b - a == if o_leap(y as i64) { 366 } else { 365 });
+    // month/day offset inside year y: equals the calendar ordinal - 1
+    let m: u32 = kani::any();
+    let d: u32 = kani::any();
+    kani::assume(m >= 1 && m <= 12 && d >= 1 && d <= o_dim(y as i64, m));
+    let mut ord: i32 = d as i32 - 1;
+    let mut k = 1u32;
+    while k < 12 {
+        if k < m { ord += o_dim(y as i64, k) as i32; }
+        k += 1;
+    }
+    assert!(date_to_days_since_epoch(y, m, d) - a == ord);
+    assert!(date_to_days_since_epoch(1970, 1, 1) == 0);
 }
 
 //@ props=C41 kind=mustfail
